@@ -88,8 +88,15 @@ func sameKinds(path string, a, b geojson.Object) string {
 }
 
 func c08Check(c c08Case) fw.Outcome {
-	base, berr := geojson.Parse(c.Text, defaultOptsModel.lib())
-	alt, aerr := geojson.Parse(c.Text, c.Opts.lib())
+	base, berr, ch1 := parseWatched(c.Text, defaultOptsModel.lib())
+	alt, aerr, ch2 := parseWatched(c.Text, c.Opts.lib())
+	if ch1+ch2 != "" {
+		return fw.Failf("options-untouched", "%s", ch1+ch2)
+	}
+	// the same text once more under the package defaults (nil options)
+	if _, _, ch3 := parseWatched(c.Text, nil); ch3 != "" {
+		return fw.Failf("options-untouched", "%s", ch3)
+	}
 	if berr != nil {
 		if aerr == nil {
 			return fw.Failf("rejected-by-default", "options %+v turn a rejection (%v) into acceptance; text %q", c.Opts, berr, c.Text)
